@@ -960,3 +960,25 @@ package query
 //@       tileOk(as(list[partition[k]], *value.Integer).value, k + 1, perTile, ntM(total, tileNumber)))
 //@   loop 1 modifies fresh
 //@   modifies *
+
+// ---------------------------------------------------------------------------------------------
+// C19: rectangular tables. LTSV rows lack the labels first seen on later lines; each row is padded to the header
+// length (worker closure run under GoroutineTaskManager.Run).
+//@ func loadViewFromLTSVFile$1
+//@   property C19
+//@   safety
+//@   requires 0 <= index && index < len(records)
+//@   ensures [row-as-long-as-header] result == nil && len(records[index]) == max(old(len(records[index])), len(header))
+//@   ensures [existing-fields-kept] forall(q, 0, old(len(records[index])), records[index][q] == old(records[index][q]))
+//@   ensures [other-rows-untouched] forall(k, 0, len(records), k != index ==> records[k] == old(records[k]))
+//@   loop 1 invariant old(len(records[index])) <= j && len(records[index]) == j && (j <= len(header) || j == old(len(records[index]))) && records == old(records)
+//@   loop 1 invariant base(records[index]) == old(base(records[index])) || fresh(records[index])
+//@   loop 1 invariant forall(q, 0, old(len(records[index])), records[index][q] == old(records[index][q])) && forall(k, 0, len(records), k != index ==> records[k] == old(records[k]))
+//@   loop 1 modifies fresh, records[*], records[index][*]
+
+// the record set is regrown once, with a capacity estimated from the bytes read so far; the estimate must not fall
+// below the 300 rows already read (machine arithmetic assumed: a ratio above 1 scaled by 300 and 1.2 is above 300)
+//@ axiom regrow_estimate_above_prepared_cap: forallv(a, int64, forallv(b, int, 0 < b && b < a ==> int(float64(a) / float64(b) * 300.0 * 1.2) >= 300))
+//@ func readRecordSet$1
+//@   property C19
+//@   safety
